@@ -337,6 +337,7 @@ func (app *Application) castVote(
 			"err", err,
 			"proposal_id", proposalVote.ID,
 		)
+		return err
 	}
 	// Ensure proposal is active.
 	if proposal.State != governance.StateActive {
